@@ -23,6 +23,9 @@ ComposeRules == {
   R("compose", "type", "upper", "reject"),
   R("compose", "date", "date7", "reject"), R("compose", "date", "date9", "reject"), R("compose", "date", "date_dashed", "reject"),
   R("compose", "date", "int", "reject"), R("compose", "date", "none", "reject"),
+  \* "nl": the valid value followed by a line feed; "fullwidth": its digits replaced by full-width (non-ASCII) digits
+  R("compose", "date", "nl", "reject"), R("compose", "date", "fullwidth", "reject"),
+  R("compose+label", "label", "nl", "reject"), R("compose+label", "label", "fullwidth", "reject"),
   R("compose", "id", "empty", "reject"), R("compose", "id", "nodate", "reject"), R("compose", "id", "none", "reject"),
   R("compose", "id", "int", "reject"), R("compose", "id", "variantid", "reject"),     \* a value valid for ANOTHER field called id
   R("compose", "respin", "strnum", "reject"), R("compose", "respin", "none", "reject"), R("compose", "respin", "float", "reject"),
@@ -35,6 +38,7 @@ ReleaseRules(k) == {
   R(k, "name", "none", "reject"), R(k, "name", "int", "reject"), R(k, "short", "none", "reject"), R(k, "short", "int", "reject"),
   R(k, "version", "empty", "reject"), R(k, "version", "trailingdot", "reject"), R(k, "version", "doubledot", "reject"),
   R(k, "version", "alnum", "reject"), R(k, "version", "none", "reject"), R(k, "version", "int", "reject"),
+  R(k, "version", "nl", "reject"),
   R(k, "type", "unknown", "reject"), R(k, "type", "upper", "coerce"), R(k, "type", "empty", "reject"), R(k, "type", "none", "reject"),
   R(k, "is_layered", "str", "coerce"), R(k, "is_layered", "none", "coerce"), R(k, "is_layered", "int", "coerce"),
   R(k, "internal", "str", "coerce"), R(k, "internal", "none", "coerce"), R(k, "internal", "int", "coerce") }
@@ -45,11 +49,12 @@ CiRules == ReleaseRules("ci.release") \cup
   R("ci.base_product", "version", "none", "reject"), R("ci.base_product", "type", "unknown", "reject"),
   R("ci.base_product", "type", "upper", "reject"), R("ci.base_product", "type", "none", "reject"),
   R("ci.variant", "id", "dash", "reject"), R("ci.variant", "id", "empty", "reject"), R("ci.variant", "id", "space", "reject"),
-  R("ci.variant", "id", "none", "reject"),
+  R("ci.variant", "id", "none", "reject"), R("ci.variant", "id", "nl_aligned", "reject"),      \* id and uid both end in a line feed
+  R("ci.variant", "uid", "none", "reject"), R("ci.variant", "uid", "int", "reject"),
   R("ci.variant", "uid", "misaligned", "reject"),
   R("ci.variant", "name", "empty", "reject"), R("ci.variant", "name", "none", "reject"), R("ci.variant", "name", "int", "reject"),
   R("ci.variant", "type", "unknown", "reject"), R("ci.variant", "type", "upper", "reject"), R("ci.variant", "type", "none", "reject"),
-  R("ci.variant", "arches", "emptyset", "reject"), R("ci.variant", "arches", "none", "reject"),
+  R("ci.variant", "arches", "emptyset", "reject"), R("ci.variant", "arches", "none", "reject"), R("ci.variant", "arches", "str", "reject"),
   R("ci.childvariant", "arches", "foreign", "reject"),
   \* an architecture the TOP-level ancestor has but the direct parent lacks (needs three levels)
   R("ci.grandchild", "arches", "foreign_ancestor", "reject"),
@@ -69,6 +74,7 @@ ImageRules == {
   R("img.image", "checksums", "emptydict", "reject"), R("img.image", "checksums", "none", "reject"), R("img.image", "checksums", "list", "reject"),
   R("img.image", "implant_md5", "md5_short", "reject"), R("img.image", "implant_md5", "md5_upper", "reject"),
   R("img.image", "implant_md5", "md5_31", "reject"), R("img.image", "implant_md5", "int", "reject"),
+  R("img.image", "implant_md5", "md5_nl", "reject"),
   R("img.image", "bootable", "str", "coerce"), R("img.image", "bootable", "none", "coerce"), R("img.image", "bootable", "int", "coerce"),
   R("img.image", "unified", "str", "reject"), R("img.image", "unified", "none", "reject"), R("img.image", "unified", "int", "reject"),
   R("img.image", "subvariant", "none", "reject"), R("img.image", "subvariant", "int", "reject"),
@@ -81,6 +87,7 @@ ImageRules == {
 TiRules == {
   R("ti.release", "name", "none", "na"), R("ti.release", "short", "none", "na"),
   R("ti.release", "version", "trailingdot", "reject"), R("ti.release", "version", "alnum", "reject"), R("ti.release", "version", "none", "na"),
+  R("ti.release", "version", "nl", "na"),
   R("ti.release", "is_layered", "str", "reject"),
   R("ti.base_product", "name", "none", "na"), R("ti.base_product", "short", "none", "na"),
   R("ti.base_product", "version", "trailingdot", "reject"), R("ti.base_product", "version", "alnum", "reject"),
@@ -93,6 +100,7 @@ TiRules == {
   R("ti.variant", "name", "none", "na"),
   R("ti.childvariant", "uid", "misaligned", "reject"),
   R("ti.images", "image_paths", "absolute", "reject"), R("ti.images", "platforms", "unreferenced", "reject"),
+  R("ti.images", "image_paths", "int", "na"),
   \* the absolute path sits under an image name that another platform lists too (first / last platform holding it)
   R("ti.sharedimages", "image_paths", "absolute_shared", "reject"), R("ti.sharedimages", "image_paths", "absolute_shared_last", "reject"),
   R("ti.images", "platforms", "arch_unreferenced", "reject"),     \* images under the tree arch itself, arch missing from tree.platforms
@@ -102,6 +110,8 @@ TiRules == {
   R("ti.media", "discnum", "str", "reject"), R("ti.media", "discnum", "float", "na"),
   R("ti.media", "totaldiscs", "str", "reject"), R("ti.media", "totaldiscs", "float", "na"),
   R("ti.media", "totaldiscs", "onlyone", "na"),
+  \* a tree WITHOUT media numbering (both None: valid) gets one junk value that merely looks empty
+  R("ti.nomedia", "discnum", "empty", "na"), R("ti.nomedia", "discnum", "zerofloat", "na"), R("ti.nomedia", "discnum", "emptylist", "na"),
   R("ti.checksums", "paths", "absolute", "reject"),
   \* document-only classes ("doc:" prefix): not expressible on an object, skipped on the write side
   R("ti.checksums", "value", "doc:bare_unknown_length", "reject"), R("ti.checksums", "value", "doc:bare_unknown_length_first", "reject") }
@@ -112,7 +122,8 @@ DiRules == {
   R("di.discinfo", "arch", "empty", "reject"), R("di.discinfo", "arch", "none", "na"), R("di.discinfo", "arch", "int", "na"),
   R("di.discinfo", "description", "bytes", "na"), R("di.discinfo", "arch", "bytes", "na"),      \* text fields take text only
   R("di.discinfo", "disc_numbers", "emptylist", "na"), R("di.discinfo", "disc_numbers", "none", "na"),
-  R("di.discinfo", "disc_numbers", "str", "reject"), R("di.discinfo", "disc_numbers", "tuple", "na") }
+  R("di.discinfo", "disc_numbers", "str", "reject"), R("di.discinfo", "disc_numbers", "tuple", "na"),
+  R("di.discinfo", "disc_numbers", "list_of_text", "na"), R("di.discinfo", "disc_numbers", "list_of_float", "na") }
 Rules == ComposeRules \cup CiRules \cup ImageRules \cup TiRules \cup DiRules
 
 \* node kinds a dump of each format visits and validates (composeinfo.py / images.py / treeinfo.py serialize chains)
@@ -121,7 +132,7 @@ Walk == [ composeinfo |-> {"compose", "compose+label", "ci.release", "ci.base_pr
           rpms        |-> {"compose", "compose+label"},
           modules     |-> {"compose", "compose+label"},
           extra_files |-> {"compose", "compose+label"},
-          treeinfo    |-> {"ti.release", "ti.base_product", "ti.tree", "ti.variant", "ti.childvariant", "ti.images", "ti.sharedimages", "ti.stage2",
+          treeinfo    |-> {"ti.release", "ti.base_product", "ti.tree", "ti.variant", "ti.childvariant", "ti.images", "ti.sharedimages", "ti.nomedia", "ti.stage2",
                            "ti.media", "ti.checksums"},
           discinfo    |-> {"di.discinfo"} ]
 FmtOf(s) == CHOOSE f \in DOMAIN Walk : \E i \in 0..9 : s = f \o "_" \o ToString(i)
@@ -140,7 +151,7 @@ Cases == {[sample |-> s, node |-> i, label |-> Nodes[s][i].label, kind |-> r[1],
 \* ---- document-level corruptions (C07): header type swap, mangled version, deleted required key / section
 Types == [composeinfo |-> "productmd.composeinfo", images |-> "productmd.images", rpms |-> "productmd.rpms",
           modules |-> "productmd.modules", extra_files |-> "productmd.extra_files", treeinfo |-> "productmd.treeinfo"]
-Mangled == {"nonnumeric", "onepart", "threepart", "empty", "null", "float", "trailing_x", "negative", "valid_elsewhere"}
+Mangled == {"nonnumeric", "onepart", "threepart", "empty", "null", "float", "trailing_x", "negative", "valid_elsewhere", "trailing_nl", "fullwidth"}
 Req(f, P) == {<<f, p>> : p \in P}
 ComposeReq == {"payload", "payload/compose", "payload/compose/id", "payload/compose/type", "payload/compose/date", "payload/compose/respin"}
 Required ==
